@@ -38,6 +38,9 @@ class Oracle:
 
     def bad(self, prop, what):
         self.viol.append((prop, what))
+        if self.restarted and prop in ("C16", "C17"):
+            # what must still hold after a save/restore is C18's claim as well
+            self.viol.append(("C18", what + " (after a save/restore)"))
 
     # -- before an op: things that need the pre-state
     def pre(self, line):
@@ -75,6 +78,7 @@ class Oracle:
         outs = reply.split(" | ")[0].split()
         if t[0] == "restart":
             self.holder.clear()
+            self.restarted = True
         # hand-outs observed
         for o in outs:
             if o.startswith("pulled:"):
@@ -156,6 +160,13 @@ class Oracle:
                 self.bad("C16", f"unfinished job serial {s} is in {n} places: {loc[s]}")
             if n == 0 and quiescent and t[0] != "disconnect":
                 self.bad("C16", f"unfinished job {j.jobid!r} (serial {s}) is neither queued nor held by a live worker")
+        # no unfinished job sits in a queue while a puller that asked for its channel is blocked
+        for chans, ev in wq._waiters:
+            for c, heap in wq.channel2q.items():
+                if not chans or c in chans:
+                    und = [j.serial for j in heap if not j.done]
+                    if und:
+                        self.bad("C17", f"job serial {min(und)} is queued on channel {c} while worker {getattr(ev, 'owner', '?')} is blocked waiting for channels {chans or 'any'}")
         # waiters released exactly when finished (at quiescent points)
         if quiescent:
             for w, c in sim.conns.items():
@@ -338,7 +349,7 @@ def run_history(sim_mod, lines_or_gen, nops=None):
             if t[0] == "wait" and not sim.busy(int(t[1])):
                 pass
             rep = sim.op(line)
-            if t[0] == "wait":
+            if t[0] == "wait" and rep.startswith("blocked:"):
                 c = sim.conns.get(int(t[1]))
                 if c is not None and c.cmdname == "wait":
                     c.wait_ids = [sim_mod.parse_id(x) for x in t[2].split(",") if x and x != "-"]
